@@ -209,6 +209,7 @@ def _holds_monitor(ctx, inp, out):
 POLY_SHAPES = ("Polygon", "MultiPolygon")
 LINE_SHAPES = ("LineString", "MultiLineString")
 _ORACLE = {}
+_CONTRACTED = set()
 
 
 def _oracle(shape, all_touched, nx, ny):
@@ -262,6 +263,12 @@ def _holds_general(ctx, inp, out):
     for k, (g, sh) in enumerate(zip(inp["geoms"], img["shapes"])):
         if sh["type"] in LINE_SHAPES:
             continue
+        seen = (jkey(sh), nx, ny)
+        if seen in _CONTRACTED:                 # the contracts of this shape were evaluated earlier in this run
+            continue
+        if len(_CONTRACTED) > 50000:
+            _CONTRACTED.clear()
+        _CONTRACTED.add(seen)
         plain, touched = _oracle(sh, False, nx, ny), _oracle(sh, True, nx, ny)
         ok = all(touched[i][j] or not plain[i][j] for i in range(nx) for j in range(ny))
         ctx.contract("rasterio-touched-superset", ok, {"shape": sh, "raster": [nx, ny]}, plain,
@@ -1018,7 +1025,8 @@ def _size_cases(ctx):
         geoms = [_box(rng, tp, fp) if rng.random() < 0.7 else _snap(rng, {"type": "Point"}, tp, fp) for _ in range(ngeo)]
         vals = [rng.choice([1, 2, 3, 4, 5, 6, 7, 8]) for _ in geoms]
         out.append({**base, "time_first": rng.random() < 0.5, "geoms": geoms, "values": vals})
-        out.append({**base, "time_first": rng.random() < 0.5, "geoms": geoms, "values": 3, "values_tuple": False})
+        if ngeo < 100:
+            out.append({**base, "time_first": rng.random() < 0.5, "geoms": geoms, "values": 3, "values_tuple": False})
         ctx.tally(f"sizes:geometries:{ngeo}")
     for nv in (16, 17, 256, 257, 1023, 1024, 1025):
         ring = _ring(nv, 2.0, 2.5, 1.9, 2.4, q=4096)
@@ -1032,14 +1040,20 @@ def _size_cases(ctx):
                         "all_touched": rng.random() < 0.5})
         ctx.tally(f"sizes:vertices:{nv}")
     for nbins in (1023, 1024, 1025):
-        big = [i * 0.25 for i in range(nbins)]
-        small = [0.0, 1.0, 2.0]
-        for which in ("time", "freq"):
-            tt, ff = (big, small) if which == "time" else (small, big)
-            btp, bfp = _positions(rng, tt), _positions(rng, ff)
-            geoms = [_box(rng, btp, bfp) for _ in range(3)]
-            out.append({**base, "time": rats(tt), "freq": rats(ff), "time_first": rng.random() < 0.5, "geoms": geoms,
-                        "values": [1, 2, 3]})
+        for kind in ("dyadic", "decimal", "irregular"):
+            if kind == "dyadic":
+                big = [i * 0.25 for i in range(nbins)]
+            elif kind == "decimal":
+                big = [0.5 + i * 0.01 for i in range(nbins)]
+            else:
+                big = [i * 0.25 + (0.125 if i % 3 == 1 else 0.0) + i * i * 1e-4 for i in range(nbins)]
+            small = [0.0, 1.0, 2.0]
+            for which in ("time", "freq"):
+                tt, ff = (big, small) if which == "time" else (small, big)
+                btp, bfp = _positions(rng, tt), _positions(rng, ff)
+                geoms = [_box(rng, btp, bfp) for _ in range(3)]
+                out.append({**base, "time": rats(tt), "freq": rats(ff), "time_first": rng.random() < 0.5, "geoms": geoms,
+                            "values": [1, 2, 3], which + "_via": "array_step" if kind == "decimal" else "array"})
         ctx.tally(f"sizes:bins:{nbins}")
     return out
 
